@@ -4,7 +4,9 @@ use serde_json::Value;
 pub mod c01;
 pub mod c02;
 pub mod c03;
+pub mod c04;
 pub mod c05;
+pub mod c06;
 pub mod c07;
 pub mod c08;
 pub mod c09;
@@ -12,6 +14,7 @@ pub mod c10;
 pub mod c11;
 pub mod c12;
 pub mod c13;
+pub mod c14;
 pub mod c16;
 pub mod c19;
 
@@ -25,7 +28,9 @@ pub const ENTRIES: &[Entry] = &[
     Entry { id: "C01", run: c01::run, replay: c01::replay },
     Entry { id: "C02", run: c02::run, replay: c02::replay },
     Entry { id: "C03", run: c03::run, replay: c03::replay },
+    Entry { id: "C04", run: c04::run, replay: c04::replay },
     Entry { id: "C05", run: c05::run, replay: c05::replay },
+    Entry { id: "C06", run: c06::run, replay: c06::replay },
     Entry { id: "C07", run: c07::run, replay: c07::replay },
     Entry { id: "C08", run: c08::run, replay: c08::replay },
     Entry { id: "C09", run: c09::run, replay: c09::replay },
@@ -33,6 +38,7 @@ pub const ENTRIES: &[Entry] = &[
     Entry { id: "C11", run: c11::run, replay: c11::replay },
     Entry { id: "C12", run: c12::run, replay: c12::replay },
     Entry { id: "C13", run: c13::run, replay: c13::replay },
+    Entry { id: "C14", run: c14::run, replay: c14::replay },
     Entry { id: "C16", run: c16::run, replay: c16::replay },
     Entry { id: "C19", run: c19::run, replay: c19::replay },
 ];
